@@ -175,11 +175,11 @@ ASSUME AlphabetOK
 
 H(a) == a.t = "Handle"
 All(P(_, _)) == \A a \in Acts : P(st, a)
-C15_AccessPolicy == \A a \in Acts : C15_Step(st, a) \/ F3_Shape(a)
+C15_AccessPolicy == \A a \in Acts : C15_Step(st, a)   \* (finding F-3 repaired: no excused shape any more)
 C16_NoAmplification == All(C16_Step)
 C17_RequestSizedBufferSuffices == \A a \in Acts : C17_Step(st, a) \/ F4_Shape(a)
 C18_EchoOnly == All(C18_Step)
-C19_NtsAnswers == \A a \in Acts : C19_Step(st, a) \/ F16_Shape(a)
+C19_NtsAnswers == \A a \in Acts : C19_Step(st, a)   \* (finding F-16 repaired: no excused shape any more)
 C20_RateLimit == All(C20_Step)
 C21_Statistics == All(C21_Reg)
 C22_Total == All(C22_Step)
@@ -188,7 +188,7 @@ StepOf(p, s, a) ==
   CASE p = "C15" -> C15_Step(s, a) [] p = "C16" -> C16_Step(s, a) [] p = "C17" -> C17_Step(s, a)
     [] p = "C18" -> C18_Step(s, a) [] p = "C19" -> C19_Step(s, a) [] p = "C20" -> C20_Step(s, a)
     [] p = "C21" -> C21_Reg(s, a) [] p = "C22" -> C22_Step(s, a)
-KnownShape(p, a) == CASE p = "C15" -> F3_Shape(a) [] p = "C17" -> F4_Shape(a) [] p = "C19" -> F16_Shape(a) [] OTHER -> FALSE
+KnownShape(p, a) == CASE p = "C17" -> F4_Shape(a) [] OTHER -> FALSE
 Props == IF Prop = "all" THEN {"C15", "C16", "C17", "C18", "C19", "C20", "C21", "C22"} ELSE {Prop}
 
 \* properties falsified by the (code-faithful) model on this transition: design-level counterexamples
